@@ -45,7 +45,13 @@ func genC10(tier string, seed int64) []Case {
 		r := rng(seed, "C10")
 		for i := 0; i < 300; i++ {
 			ph := c10Phases[r.Intn(len(c10Phases))]
-			add(c10Desc{Phase: ph, Extra: 1 + r.Intn(3), Exts: r.Intn(3), Offset: r.Intn(3000), History: r.Intn(4)})
+			d := c10Desc{Phase: ph, Extra: 1 + r.Intn(3), Exts: r.Intn(3), Offset: r.Intn(3000), History: r.Intn(4)}
+			if ph == "responded" && d.Exts == 0 {
+				// without an extension the invocation is OVER once the runtime asked
+				// for the next event: a caller arriving then is legitimately served
+				d.Exts = 1
+			}
+			add(d)
 		}
 	}
 	return cases
